@@ -18,8 +18,13 @@ use std::collections::{BTreeMap, BTreeSet, HashSet};
 const CAT: &str = "datafusion";
 const PUBLIC: &str = "public";
 
-/// The three object names: (sql spelling, schema, resolved name).
-const NAMES: [(&str, &str, &str); 3] = [("a", PUBLIC, "a"), ("\"A\"", PUBLIC, "A"), ("s.a", "s", "a")];
+/// The object names: (sql spelling, catalog, schema, resolved name).  The last one
+/// lives in a schema of the second catalog `d` that has the SAME name (`public`) as
+/// the default schema of the default catalog.
+const NAMES: [(&str, &str, &str, &str); 4] =
+    [("a", CAT, PUBLIC, "a"), ("\"A\"", CAT, PUBLIC, "A"), ("s.a", CAT, "s", "a"), ("d.public.a", "d", PUBLIC, "a")];
+/// Index of the name in the second catalog: only the statements of `per_name_d` use it.
+const NAME_D: usize = 3;
 
 #[derive(Clone, Copy, Debug, PartialEq, Eq, Hash, Serialize, Deserialize, PartialOrd, Ord)]
 enum Op {
@@ -40,6 +45,7 @@ enum Op {
     DropSchemaCascade,
     DropSchemaIfExists,
     CreateDatabase,
+    CreateSchemaInD, // CREATE SCHEMA d.public
 }
 
 #[derive(Clone, Copy, Debug, PartialEq, Eq, Hash, Serialize, Deserialize, PartialOrd, Ord)]
@@ -70,6 +76,7 @@ impl Stmt {
             Op::DropSchemaCascade => "DROP SCHEMA s CASCADE".into(),
             Op::DropSchemaIfExists => "DROP SCHEMA IF EXISTS s".into(),
             Op::CreateDatabase => "CREATE DATABASE d".into(),
+            Op::CreateSchemaInD => "CREATE SCHEMA d.public".into(),
         }
     }
 }
@@ -90,10 +97,15 @@ fn alphabet() -> Vec<Stmt> {
         Op::Insert,
     ];
     for op in per_name {
-        for name in 0..NAMES.len() {
+        for name in 0..NAME_D {
             out.push(Stmt { op, name });
         }
     }
+    // second catalog: a schema named like the default one, plain tables only
+    for op in [Op::CreateTable, Op::DropTable, Op::Insert] {
+        out.push(Stmt { op, name: NAME_D });
+    }
+    out.push(Stmt { op: Op::CreateSchemaInD, name: 0 });
     for op in [Op::CreateSchema, Op::CreateSchemaIfNotExists, Op::DropSchema, Op::DropSchemaCascade, Op::DropSchemaIfExists, Op::CreateDatabase] {
         out.push(Stmt { op, name: 0 });
     }
@@ -148,11 +160,18 @@ impl Model {
         m
     }
     fn schema(&self, schema: &str) -> Option<&BTreeMap<String, ObjRef>> {
-        self.catalogs.get(CAT)?.get(schema)
+        self.schema_in(CAT, schema)
+    }
+    fn schema_in(&self, cat: &str, schema: &str) -> Option<&BTreeMap<String, ObjRef>> {
+        self.catalogs.get(cat)?.get(schema)
     }
     fn lookup(&self, name: usize) -> Option<ObjRef> {
-        let (_, s, n) = NAMES[name];
-        self.schema(s)?.get(n).copied()
+        let (_, c, s, n) = NAMES[name];
+        self.schema_in(c, s)?.get(n).copied()
+    }
+    fn unlink(&mut self, name: usize) {
+        let (_, c, s, n) = NAMES[name];
+        self.catalogs.get_mut(c).unwrap().get_mut(s).unwrap().remove(n);
     }
     fn x_int() -> Vec<Col> {
         vec![Col { name: "x", ty: "Int32", nullable: true }]
@@ -161,8 +180,8 @@ impl Model {
         vec![Col { name: "x", ty: "Int32", nullable: true }, Col { name: "y", ty: "Utf8View", nullable: true }]
     }
     fn put(&mut self, name: usize, o: ObjRef) {
-        let (_, s, n) = NAMES[name];
-        self.catalogs.get_mut(CAT).unwrap().get_mut(s).unwrap().insert(n.into(), o);
+        let (_, c, s, n) = NAMES[name];
+        self.catalogs.get_mut(c).unwrap().get_mut(s).unwrap().insert(n.into(), o);
     }
     fn new_table(&mut self, cols: Vec<Col>, rows: Vec<Row>) -> ObjRef {
         self.next += 1;
@@ -177,8 +196,8 @@ impl Model {
 
     /// Apply a statement: `true` = succeeds (and the model is updated), `false` = must fail.
     fn apply(&mut self, st: &Stmt) -> bool {
-        let (_, schema, _) = NAMES[st.name];
-        let schema_exists = self.schema(schema).is_some();
+        let (_, cat, schema, _) = NAMES[st.name];
+        let schema_exists = self.schema_in(cat, schema).is_some();
         let existing = self.lookup(st.name);
         match st.op {
             Op::CreateTable | Op::CreateTableAs => {
@@ -213,16 +232,14 @@ impl Model {
             }
             Op::DropTable | Op::DropTableIfExists => match existing {
                 Some(ObjRef::Table(_)) => {
-                    let (_, s, n) = NAMES[st.name];
-                    self.catalogs.get_mut(CAT).unwrap().get_mut(s).unwrap().remove(n);
+                    self.unlink(st.name);
                     true
                 }
                 _ => st.op == Op::DropTableIfExists,
             },
             Op::DropView | Op::DropViewIfExists => match existing {
                 Some(ObjRef::View(_)) => {
-                    let (_, s, n) = NAMES[st.name];
-                    self.catalogs.get_mut(CAT).unwrap().get_mut(s).unwrap().remove(n);
+                    self.unlink(st.name);
                     true
                 }
                 _ => st.op == Op::DropViewIfExists,
@@ -275,6 +292,16 @@ impl Model {
                 }
                 self.catalogs.insert("d".into(), BTreeMap::new());
                 true
+            }
+            Op::CreateSchemaInD => {
+                // needs the catalog; an existing schema is an error (no IF NOT EXISTS)
+                match self.catalogs.get_mut("d") {
+                    Some(schemas) if !schemas.contains_key(PUBLIC) => {
+                        schemas.insert(PUBLIC.into(), BTreeMap::new());
+                        true
+                    }
+                    _ => false,
+                }
             }
         }
     }
@@ -400,7 +427,7 @@ fn run_history(c: &Case) -> Result<Outcome, String> {
     }
     let mut causes: Vec<(&'static str, String)> = vec![];
     // P1: SELECT * FROM every name
-    for (i, (spelling, _, _)) in NAMES.iter().enumerate() {
+    for (i, (spelling, _, _, _)) in NAMES.iter().enumerate() {
         let sql = format!("SELECT * FROM {spelling}");
         let got = engine::run_sql(&sctx, &sql);
         let agree = |want: &Answer| -> bool {
@@ -637,7 +664,7 @@ fn main() {
         "C49",
         Level::ModelChecking,
         "BFS over DDL histories (CREATE [OR REPLACE] TABLE [IF NOT EXISTS] / CTAS, DROP TABLE/VIEW [IF EXISTS], CREATE [OR REPLACE] VIEW, CREATE/DROP SCHEMA [IF [NOT] EXISTS] [CASCADE], CREATE DATABASE, INSERT) \
-         over names a, \"A\", s.a; states = distinct canonical reference catalogs, transitions = histories replayed on a fresh SessionContext (success/failure of every statement, then SELECT * per name and \
+         over names a, \"A\", s.a and d.public.a (second catalog, schema named like the default one: CREATE SCHEMA d.public, CREATE/DROP TABLE, INSERT); states = distinct canonical reference catalogs, transitions = histories replayed on a fresh SessionContext (success/failure of every statement, then SELECT * per name and \
          information_schema.tables/columns/views/schemata compared with the reference catalog); non-trivial = the last statement changed the catalog or a table's contents",
         explore,
         replay,
